@@ -15,10 +15,11 @@ func init() { register("C10", "other", checkC10) }
 
 func checkC10(c *Ctx, r *Report) {
 	r.Explanation = "Decides three structural necessary conditions of uniqueness: (R1) the number placed in the session reference is an atomically allocated value - it is read from the shared counter inside the critical section (eligible lock held) that also increments it, with no release in between, or comes from an atomic add / id generator; (R2) the reference is an injective function of that number: the digits-only counter is the last (or first) component of the concatenation and is separated from free text by a constant whose adjacent character is not a digit; (R3) the session map ue.Cdr is written only by create under the key returned in Location (same SSA value, see C12.R1) and by update/release under the request's own session reference; nothing deletes or re-keys a live entry elsewhere."
-	r.Undecided = []string{"uniqueness across process restarts", "overflow of the 64-bit counter"}
+	r.Undecided = []string{"uniqueness across process restarts", "overflow of a 64-bit counter (out of reach)"}
 	r.Assumptions = append(r.Assumptions, "strconv.Itoa/FormatInt/FormatUint of a non-negative number yields digits only")
 	r.rule("C10.R1", "the counter component of the session reference is allocated atomically (read in the critical section of its increment)", 1)
 	r.rule("C10.R2", "the session reference is an injective function of the counter (constant non-digit separator next to the digits)", 1)
+	r.rule("C10.R4", "the allocated number is carried in 64 bits from the counter to the digits (no wrap-around within the life of the process)", 1)
 	r.rule("C10.R3", "ue.Cdr is written only in create (key = the reference) and in update/release under the request's own reference", 1)
 
 	create := c.fn("internal/sbi/processor", "Processor.ChargingDataCreate")
@@ -80,6 +81,11 @@ func checkC10(c *Ctx, r *Report) {
 		r.check(atomicOK, "C10.R1", key+"|counter", posOf(c, idPos), why, "the number in the session reference "+desc+" is not allocated atomically: "+why)
 		if !atomicOK {
 			goodIdx = counterIdx[len(counterIdx)-1]
+		}
+		// R4 width of the number on its way from the counter to the digits
+		if atomicOK {
+			w, where := narrowestWidth(c, isDigitsOf(comps[goodIdx]), 0, map[ssa.Value]bool{})
+			r.check(w >= 8, "C10.R4", key+"|counter width", posOf(c, idPos), "the number is 64 bits wide at every step from the counter to its digits", fmt.Sprintf("the allocated number passes through a %d-bit integer (%s): after 2^%d allocations it wraps and a new session can be given the reference of one that is still open", w*8, where, w*8))
 		}
 		// R2 injectivity
 		inj, w2 := injectiveIn(comps, goodIdx)
@@ -338,4 +344,78 @@ func injectiveIn(comps []ssa.Value, ci int) (bool, string) {
 	}
 	// in the middle: needs constant non-digit separators on both sides AND no digits-free ambiguity elsewhere: not accepted
 	return false, "the counter is in the middle of the concatenation; only counter-last / counter-first shapes with a constant non-digit separator are accepted"
+}
+
+// narrowestWidth follows an integer value back to its origin (conversions,
+// results of module functions, loads of struct members, arithmetic) and
+// returns the size in octets of the narrowest integer type on the way.
+func narrowestWidth(c *Ctx, v ssa.Value, depth int, seen map[ssa.Value]bool) (int, string) {
+	own := sizeOfBasic(v.Type())
+	if own <= 0 {
+		own = 8
+	}
+	best, where := own, types.TypeString(v.Type(), nil)+" "+describe(v)
+	if depth > 6 || seen[v] {
+		return best, where
+	}
+	seen[v] = true
+	merge := func(w int, wh string) {
+		if w > 0 && w < best {
+			best, where = w, wh
+		}
+	}
+	switch x := v.(type) {
+	case *ssa.Convert:
+		merge(narrowestWidth(c, x.X, depth, seen))
+	case *ssa.ChangeType:
+		merge(narrowestWidth(c, x.X, depth, seen))
+	case *ssa.Phi:
+		for _, e := range x.Edges {
+			if _, isConst := e.(*ssa.Const); !isConst {
+				merge(narrowestWidth(c, e, depth, seen))
+			}
+		}
+	case *ssa.BinOp:
+		for _, o := range []ssa.Value{x.X, x.Y} {
+			if _, isConst := o.(*ssa.Const); !isConst {
+				merge(narrowestWidth(c, o, depth, seen))
+			}
+		}
+	case *ssa.UnOp:
+		if x.Op == token.MUL {
+			if fa, ok := x.X.(*ssa.FieldAddr); ok {
+				if st := derefStruct(fa.X.Type()); st != nil {
+					merge(sizeOfBasic(st.Field(fa.Field).Type()), "member "+st.Field(fa.Field).Name()+" "+types.TypeString(st.Field(fa.Field).Type(), nil))
+				}
+			}
+			if a, ok := x.X.(*ssa.Alloc); ok {
+				for _, ref := range *a.Referrers() {
+					if st, ok := ref.(*ssa.Store); ok && st.Addr == ssa.Value(a) {
+						merge(narrowestWidth(c, st.Val, depth, seen))
+					}
+				}
+			}
+		}
+	case *ssa.Call:
+		if sc := x.Call.StaticCallee(); sc != nil && c.inModule(sc) && len(sc.Blocks) > 0 {
+			for _, ri := range returnsOf(sc) {
+				if len(ri.Vals) >= 1 {
+					w, wh := narrowestWidth(c, ri.Vals[0], depth+1, seen)
+					merge(w, "result of "+sc.Name()+": "+wh)
+				}
+			}
+		}
+	case *ssa.Extract:
+		if call, ok := x.Tuple.(*ssa.Call); ok {
+			if sc := call.Call.StaticCallee(); sc != nil && c.inModule(sc) && len(sc.Blocks) > 0 {
+				for _, ri := range returnsOf(sc) {
+					if x.Index < len(ri.Vals) {
+						w, wh := narrowestWidth(c, ri.Vals[x.Index], depth+1, seen)
+						merge(w, "result of "+sc.Name()+": "+wh)
+					}
+				}
+			}
+		}
+	}
+	return best, where
 }
